@@ -221,13 +221,8 @@ partial def loop (h : IO.FS.Stream) (d : D) (lineNo : Nat) (pending : Option Out
     if d.litRes.isSome && (v == "ok" || v.startsWith "e:") then
       let m := match d.litRes with
         | some (.ok _ _ _) => "ok" | some .designError => "e:design" | some .internalError => "e:internal" | none => "?"
-      -- specification of the grammar: b/o/x literals denote their digits (LSB = last character), zero extended to an explicit width
-      let (width, restL) := splitWidth d.litStr.toList
-      let spec : Option (Option (List (Option Bool))) := match restL with
-        | 'x' :: t => if t.all (digitOk 4) then some (specDigits 4 t width) else none
-        | 'o' :: t => if t.all (digitOk 3) then some (specDigits 3 t width) else none
-        | 'b' :: t => if t.all (digitOk 1) then some (specDigits 1 t width) else none
-        | _ => none
+      -- specification of the grammar (`specLiteral`, all five literal kinds): accepted with these bits, or rejected with a design error
+      let spec : Option (Option (List (Option Bool))) := some (specLiteral d.litStr)
       let mut d := d
       if m != v then
         IO.println s!"DIFF case={d.caseId} line={lineNo} op=[{d.lastOp}] model={m} impl={v}"
@@ -277,12 +272,7 @@ partial def loop (h : IO.FS.Stream) (d : D) (lineNo : Nat) (pending : Option Out
             IO.println s!"DIFF case={d.caseId} line={lineNo} op=[{d.lastOp}] model={showBVS m} impl={showBVS impl}"
             d := { d with diffs := d.diffs + 1 }
         | _ => pure ()
-        let (width, restL) := splitWidth d.litStr.toList
-        let spec : Option (List (Option Bool)) := match restL with
-          | 'x' :: t => if t.all (digitOk 4) then specDigits 4 t width else none
-          | 'o' :: t => if t.all (digitOk 3) then specDigits 3 t width else none
-          | 'b' :: t => if t.all (digitOk 1) then specDigits 1 t width else none
-          | _ => none
+        let spec : Option (List (Option Bool)) := specLiteral d.litStr
         match spec with
         | some bits =>
           let implBits := resultBits (.ok impl.size (impl.plane 0) (impl.plane 1))
